@@ -66,7 +66,9 @@ func New(specs []Spec) *Universe {
 
 // Standard builds a universe of n blobs mixing sizes, hashes and schema-ness.
 // seed varies the contents.
-func Standard(n int, seed int64) *Universe {
+func Standard(n int, seed int64) *Universe { return New(standardSpecs(n, seed)) }
+
+func standardSpecs(n int, seed int64) []Spec {
 	var specs []Spec
 	chunk := make([]byte, 70000)
 	for i := range chunk {
@@ -94,6 +96,20 @@ func Standard(n int, seed int64) *Universe {
 			specs = append(specs, Spec{"sha224", []byte(fmt.Sprintf("extra-%d-%d", i, seed)), "small"})
 		}
 	}
+	return specs
+}
+
+// Packable is Standard(n >= 8) with the file schema blob (index 7) describing a file whose only part is the big
+// blob (index 6, > 512 KiB): a blobpacked store that holds both packs them into a zip, so that packed and loose
+// blobs coexist in the histories of the universe.
+func Packable(n int, seed int64) *Universe {
+	if n < 8 {
+		n = 8
+	}
+	specs := standardSpecs(n, seed)
+	big := specs[6]
+	specs[7].Data = []byte(fmt.Sprintf(`{"camliVersion": 1, "camliType": "file", "fileName": "f%d", "parts": [{"blobRef": "%s", "size": %d}]}`,
+		seed, refOf(big.Hash, big.Data).String(), len(big.Data)))
 	return New(specs)
 }
 
